@@ -69,6 +69,12 @@ ASSUME = [
     "op.drop_table_comment, op.add_column of a commented Column) are modelled at the dispatch level only: which construct "
     "for which table / schema / column is handed to _exec and what _exec writes; their text is one opaque token and no "
     "identifier claim is made about it (on mssql without a schema SQLAlchemy itself raises offline: left out)",
+    "postgresql create_exclude_constraint: the SQL text is SQLAlchemy's (AddConstraint / visit_exclude_constraint); modelled as "
+    "ALTER TABLE <format_table> ADD CONSTRAINT <name> EXCLUDE USING <using> (<col> WITH <op>) [WHERE (<where>)] with ONE "
+    "(column, operator) element, plain-str column; using / operator / where are opaque; the table reference goes through "
+    "SQLAlchemy's format_table, so a plain dotted schema is not judged (as for MySQL DROP CHECK); deferrable/initially not used",
+    "batch entry points whose constructs SQLAlchemy compiles alone (create_primary_key, create_unique_constraint, "
+    "create_foreign_key, create_check_constraint, create_index, drop_index, drop_constraint) are not in the operation model",
     "alembic's own ColumnComment construct is only ever built by DefaultImpl.alter_column(comment=...): covered by the "
     "operation stream on every dialect (postgresql/oracle visitors, mysql/mariadb through MODIFY/CHANGE)",
 ]
@@ -99,6 +105,11 @@ RULE = ("every (dialect, construct incl. every combination of its boolean option
         "MigrationContext.configure(dialect=...) - with schema = that default, another schema, one needing quotes, none, and "
         "the default as quoted_name; the model is the same (the schema is always emitted, alembic's ddl code reads no dialect "
         "state besides supports_comments/inline_comments and is_mariadb). "
+        "BATCH ENTRY POINTS: op.batch_alter_table(table, schema=...) on every dialect but sqlite (non-recreate path) for the "
+        "batch_* classmethods that take table name and schema from operations.impl and emit through modelled constructs "
+        "(alter_column shapes, add_column, drop_column incl. mssql_drop_*, create/drop_table_comment, add_column with comment); "
+        "postgresql create_exclude_constraint through both entry points (direct schema=, schema on the batch) x all schema "
+        "forms x identifier classes for table / constraint / element column, with and without where=, three operators. "
         "Names of the known deviation classes are generated in the main stream "
         "only once their finding ids are registered in known_findings.json (always in the search stream).")
 EXHAUSTIVE = {"quick": False, "thorough": False}
@@ -528,6 +539,15 @@ def describe(el, dialect_name):
     elif T is mssql._ExecDropFKConstraint:
         cn = ["MssqlDropFK"]
         names.update(table=el.tname, column=str(el.colname))
+    elif T is sa.schema.AddConstraint and type(el.element).__name__ == "ExcludeConstraint":
+        ex = el.element
+        exprs = list(ex._render_exprs)
+        if len(exprs) != 1:
+            raise HarnessError("only one-element EXCLUDE constraints are modelled")
+        cn = ["PgExclude", ex.where is not None]
+        names.update(table=ex.table.name, schema=ex.table.schema, column=ex.name, newname=exprs[0][1])
+        opq = [str(ex.using).lower(), exprs[0][2],
+               ddlc.sql_compiler.process(ex.where, literal_binds=True) if ex.where is not None else ""]
     elif T in (sa.schema.SetTableComment, sa.schema.DropTableComment, sa.schema.SetColumnComment):
         # compiled entirely by SQLAlchemy: the text is one opaque token; what alembic decides is which table / schema /
         # column the construct is about
@@ -553,30 +573,52 @@ def coq_op(o):
         return "(OpAlterColumn %s)" % coq_req(o[1])
     if o[0] == "drop":
         return "(OpDropColumn %s %s %s)" % tuple(cf.boolean(b) for b in o[1:])
+    if o[0] == "exclude":
+        return "(OpCreateExclude %s)" % cf.boolean(o[1])
     return {"rename_table": "OpRenameTable", "add": "OpAddColumn", "table_comment": "OpCreateTableComment",
             "drop_table_comment": "OpDropTableComment", "add_comment": "OpAddColumnComment"}[o[0]]
 
 
+EXCL_OPS = {"gt": ">", "overlap": "&&", "eq": "="}
+EXCL_WHERE = {"five": "x > 5", "lit": "y <> 'a b'", "fn": "z IS NOT NULL"}
+
+
 def call_op(op, h):
-    """the real Operations call"""
+    """the real Operations call — through the plain entry point, or (h["batch"]) through op.batch_alter_table(table,
+    schema=...), whose batch_* classmethods take table name and schema from operations.impl"""
     import sqlalchemy as sa
     t, nt, col, ncol, sch = nm(h, "table"), nm(h, "newtable"), nm(h, "column"), nm(h, "newcolumn"), nm(h, "schema")
     o = h["op"]
+    if h.get("batch"):
+        with op.batch_alter_table(t, schema=sch) as b:
+            _call(b, h, o, (), col, ncol, nt, None, sa)
+    else:
+        _call(op, h, o, (t,), col, ncol, nt, sch, sa)
+
+
+def _call(op, h, o, tbl, col, ncol, nt, sch, sa):
+    skw = {} if not tbl else dict(schema=sch)
     if o[0] == "rename_table":
-        op.rename_table(t, nt, schema=sch)
+        op.rename_table(*tbl, nt, **skw)
     elif o[0] == "add":
-        op.add_column(t, sa.Column(col, TYPES[h["type"]](sa)), schema=sch)
+        op.add_column(*tbl, sa.Column(col, TYPES[h["type"]](sa)), **skw)
     elif o[0] == "drop":
-        op.drop_column(t, col, schema=sch, mssql_drop_default=o[1], mssql_drop_check=o[2], mssql_drop_foreign_key=o[3])
+        op.drop_column(*tbl, col, mssql_drop_default=o[1], mssql_drop_check=o[2], mssql_drop_foreign_key=o[3], **skw)
     elif o[0] == "table_comment":
-        op.create_table_comment(t, COMMENTS[h["comment"]], existing_comment=None, schema=sch)
+        op.create_table_comment(*tbl, COMMENTS[h["comment"]], existing_comment=None, **skw)
     elif o[0] == "drop_table_comment":
-        op.drop_table_comment(t, existing_comment=COMMENTS[h["comment"]], schema=sch)
+        op.drop_table_comment(*tbl, existing_comment=COMMENTS[h["comment"]], **skw)
     elif o[0] == "add_comment":
-        op.add_column(t, sa.Column(col, TYPES[h["type"]](sa), comment=COMMENTS[h["comment"]]), schema=sch)
+        op.add_column(*tbl, sa.Column(col, TYPES[h["type"]](sa), comment=COMMENTS[h["comment"]]), **skw)
+    elif o[0] == "exclude":
+        kw = dict(using="gist", **skw)
+        if o[1]:
+            kw["where"] = EXCL_WHERE[h["default"]]
+        # (constraint name, [table,] (column, operator)): the column slot carries the constraint name
+        op.create_exclude_constraint(col, *tbl, (ncol, EXCL_OPS[h.get("excl", "gt")]), **kw)
     else:
         r = o[1]
-        kw = dict(schema=sch)
+        kw = dict(skw)
         if r["nullable"] is not None:
             kw["nullable"] = r["nullable"]
         if r["default"] != "keep":
@@ -601,7 +643,7 @@ def call_op(op, h):
             kw["existing_autoincrement"] = True
         if r["using"]:
             kw["postgresql_using"] = USINGS[h["using"]]
-        op.alter_column(t, col, **kw)
+        op.alter_column(*tbl, col, **kw)
 
 
 def run_op(h):
@@ -897,6 +939,45 @@ def gen_ops(tier, seed, with_findings):
             continue
         yield h
     yield from gen_state_ops(tier, seed)
+    yield from gen_batch_ops(tier, seed)
+
+
+def gen_batch_ops(tier, seed):
+    """every batch_* entry point that takes table name and schema from operations.impl and emits through alembic's own
+    constructs (alter_column, add_column, drop_column, the comment ops, postgresql create_exclude_constraint), on the
+    non-recreate path (every dialect but sqlite), with a schema on the batch; plus create_exclude_constraint through
+    both entry points"""
+    rnd = random.Random(seed * 27449 + 1416)
+    for d in DIALECTS:
+        if d == "sqlite":
+            continue
+        cl = name_classes(d)
+        shapes = ALTER_SHAPES if tier != "quick" else ALTER_SHAPES[::3]
+        ops = [["alter", r] for r in shapes]
+        ops += [["drop"] + [bool(m >> k & 1) for k in range(3)] for m in ((0, 1, 7) if d == "mssql" else (0,))]
+        ops += [["add"], ["table_comment"], ["drop_table_comment"], ["add_comment"]]
+        pairs = [("plain", "plain"), ("space", "reserved"), ("quotechar", "squote"), ("mixed", "nonascii")]
+        for o in ops:
+            for sv in list(SCHEMAS.values()) + ["My.Sch x"]:
+                if d == "mssql" and o[0] in ("table_comment", "drop_table_comment", "add_comment") and not sv:
+                    continue
+                for a, b in (pairs[:2] if tier == "quick" else pairs):
+                    h = op_case(d, o, sv, cl[a], cl[b], rnd)
+                    h["batch"] = True
+                    yield h
+        if d != "postgresql":
+            continue
+        for batch in (False, True):
+            for w in (False, True):
+                for sv in list(SCHEMAS.values()) + list(EXTRA_SCHEMAS.values()):
+                    for a in cl:
+                        for b, c in ((a, "plain"), ("plain", a), (a, a)):
+                            h = op_case(d, ["exclude", w], sv, cl[b], cl[c], rnd)
+                            h["newcolumn"] = cl[a] if b != "plain" else cl["mixed"]
+                            h["excl"] = rnd.choice(sorted(EXCL_OPS))
+                            if batch:
+                                h["batch"] = True
+                            yield h
 
 
 def state_schemas(d):
@@ -1211,8 +1292,8 @@ def _unjudged(h):
     for slot in SLOTS:
         if fl.get(slot, "plain") == "false" and h.get(slot) and needs_quotes(h["dialect"], h[slot]):
             return True
-    if (h["kind"] == "stmt" and h["construct"][0] == "MysqlDropCheck" and h["schema"] and "." in h["schema"]
-            and fl.get("schema", "plain") == "plain"):
+    sa_formatted = (h["kind"] == "stmt" and h["construct"][0] == "MysqlDropCheck") or (h["kind"] == "op" and h["op"][0] == "exclude")
+    if sa_formatted and h["schema"] and "." in h["schema"] and fl.get("schema", "plain") == "plain":
         return True
     return False
 
